@@ -342,13 +342,13 @@ package runtime
 //@ modifies ctx.private
 
 //@ func (*Task).ProcExit
-//@ props C01 C14
+//@ props C01 C14 C13
 //@ modifies ctx.procExit
 //@ ensures result == ctx.procExit
 //@ ensures old(ctx.procExit) ==> result
 
 //@ func (*Task).StmtRetrun
-//@ props C01 C14
+//@ props C01 C14 C13
 //@ modifies ctx.procExit
 //@ ensures result == (ctx.procExit || ctx.loopBreak || ctx.loopContinue)
 //@ ensures old(ctx.procExit) ==> ctx.procExit
@@ -784,3 +784,21 @@ package runtime
 //@ functype FuncCheck
 //@ params ctx expr
 //@ requires ctx != nil && expr != nil
+
+// ---- C02: compound assignment follows the rules of the binary operator it abbreviates ------------
+//@ spec aaOk() bool = callres(assign2arithOp, 0, 1)
+//@ spec aaOp() ast.Op = callres(assign2arithOp, 0, 0)
+//@ func runAssignArith
+//@ ensures[C02] ncalls(assign2arithOp) == 1 && callarg(assign2arithOp, 0, 0) == op
+//@ ensures[C02] !aaOk() ==> result2 != nil
+//@ ensures[C02] aaOk() && (!isArith(l.DType) || !isArith(r.DType)) ==> result2 != nil
+//@ ensures[C02] aaOk() && l.DType == ast.String && r.DType == ast.String && aaOp() == ast.ADD ==> result2 == nil && result1 == ast.String && typeis(result0, string) && result0.(string) == l.Value.(string) + r.Value.(string)
+//@ ensures[C02] aaOk() && isArith(l.DType) && isArith(r.DType) && (l.DType == ast.String || r.DType == ast.String) && !(l.DType == ast.String && r.DType == ast.String && aaOp() == ast.ADD) ==> result2 != nil
+//@ ensures[C02] aaOk() && isNum(l.DType) && isNum(r.DType) && (l.DType == ast.Float || r.DType == ast.Float) ==> ncalls(arithOpFloat) == 1 && ncalls(arithOpInt) == 0
+//@ | && same(callarg(arithOpFloat, 0, 0), asFloat(l.Value, l.DType)) && same(callarg(arithOpFloat, 0, 1), asFloat(r.Value, r.DType)) && callarg(arithOpFloat, 0, 2) == aaOp()
+//@ | && (callres(arithOpFloat, 0, 2) != nil ==> result2 != nil)
+//@ | && (callres(arithOpFloat, 0, 2) == nil ==> result2 == nil && typeis(result0, float64) && same(result0.(float64), callres(arithOpFloat, 0, 0)) && result1 == callres(arithOpFloat, 0, 1))
+//@ ensures[C02] aaOk() && isNum(l.DType) && isNum(r.DType) && l.DType != ast.Float && r.DType != ast.Float ==> ncalls(arithOpInt) == 1 && ncalls(arithOpFloat) == 0
+//@ | && callarg(arithOpInt, 0, 0) == asInt(l.Value, l.DType) && callarg(arithOpInt, 0, 1) == asInt(r.Value, r.DType) && callarg(arithOpInt, 0, 2) == aaOp()
+//@ | && (callres(arithOpInt, 0, 2) != nil ==> result2 != nil)
+//@ | && (callres(arithOpInt, 0, 2) == nil ==> result2 == nil && typeis(result0, int64) && result0.(int64) == callres(arithOpInt, 0, 0) && result1 == callres(arithOpInt, 0, 1))
